@@ -25,6 +25,13 @@ bytes are snapshotted too, write-protected arrays; a refusal is fine, a write is
 not), ctor_multi (entry points that build several objects in one call: each
 object on its own AND pairwise distinct identifiers), ctor_opt (palette colour
 tables 8/16 bit, odd/even sizes, each entry point, inside seg and pm).
+Extension: sop_init (hd.base.SOPClass called directly: file meta information,
+guard order, stored long strings; model-compared + strict write / read back),
+seg_plane (Segmentation._get_segment_pixel_array called directly over dtypes,
+ranks, segmentation types, max_fractional_value and memory layouts: [was the
+caller's array written to, values]; model-compared), and constructor bodies:
+translate_c20.translate_ctors turns __init__ bodies into effect terms checked by
+ok_ctor (no write to any parameter); the accepted ones are pinned obligations.
 """
 import copy as _copy
 import io
@@ -56,15 +63,25 @@ ORACLE_PREMISES = [
     'secrets.randbelow gives distinct draws (premise NoDup draws of C20_alloc_ids_fresh; the pyr_ids kind replaces '
     'it by a counter, uid_unique samples the real one)',
     'numpy dtype -> bits per entry and ndarray.tobytes() of a little-endian array = memory image (lut, pm_native)',
+    'ownership classes of numpy operations (basic indexing = view; astype / arithmetic / comparison / around = new '
+    'array; x *= k = write into x) in C20_Model.plane_ops / cast_ops; cast_ops is transcribed, not compared',
+    'constructor bodies: translator lists CTOR_READERS / CTOR_PURE_METHODS / CTOR_MODULES (minus writers and out=), '
+    'super().__init__ and Cls(...) keep references to but do not modify their arguments (checked for the pinned '
+    'constructors themselves, assume-guarantee)',
+    'SOPClass.__init__: UID arguments opaque, transfer syntax abstracted to 7 classes, dates / person names / '
+    'coding schemes / ContentDate+Time not modelled',
 ]
 MODELLED = ('all from_dataset/from_sequence/extract_from_dataset/_from_dataset_* classmethods under src/highdicom '
             '(effect terms, regenerated each run); valuerep._check_code_string/_check_short_string/_check_long_string/'
             '_check_short_text/_check_long_text; uid.UID() and UID.from_uuid; pydicom VALIDATORS[CS,SH,LO,ST,LT], '
             'VALIDATORS[UI]; content.LUT / PaletteColorLUT / PaletteColorLUTTransformation __init__ (guards, descriptor, '
             'stored bytes) and lut_data; seg.pyramid.create_segmentation_pyramid argument checks, number of outputs and '
-            'SOP Instance UID per level; pm.ParametricMap._encode_frame native branch')
+            'SOP Instance UID per level; pm.ParametricMap._encode_frame native branch; base.SOPClass.__init__ (guards in '
+            'source order, file meta information, SOP common / series / equipment attributes); '
+            'seg.Segmentation._get_segment_pixel_array (values and ownership of every numpy step); 88 pinned __init__ '
+            'bodies as effect terms (translate_c20.EXPECTED_CTORS)')
 STRATA = ['guard', 'valid', 'uid_uuid', 'uid_hd', 'uid_valid', 'uid_unique', 'conv', 'ctor',
-          'ctor_layout', 'ctor_multi', 'ctor_opt', 'lut', 'pyr_ids', 'pm_native']
+          'ctor_layout', 'ctor_multi', 'ctor_opt', 'lut', 'pyr_ids', 'pm_native', 'sop_init', 'seg_plane']
 NOT_EXECUTED = ['SpecimenDescription.from_dataset at run time (substitute attribute table has no specimen module tree)',
                 'JPEG 2000 / JPEG-LS transfer syntaxes in the ctor kinds',
                 'non-native byte order for seg / sc pixel arrays and integer pm arrays is REFUSED by the library '
@@ -80,7 +97,10 @@ RULE = ('guard/valid: strings over a boundary alphabet (upper, lower, digit, spa
         '{identifiers generated, passed}; ctor_opt / lut: tables of 1,2,3,4,5,7,8,255,256,257 entries x 8/16 bit x '
         'class x entry point (three LUTs, combined array, colour names, segmented) x holder (none, seg, pm, pr) + '
         'refusals; pyr_ids: every guard of the argument check + random; pm_native: byte order x width x rank x '
-        'mappings. non-trivial = accepted value / changed class / written file')
+        'mappings; sop_init: every guard alone and in pairs (guard order), 7 transfer-syntax classes, LO arguments of '
+        '0,1,63,64,65 characters with backslashes, numbers None/0/-1/1; seg_plane: float/int x label map/stack x '
+        'described [1]/other x BINARY/FRACTIONAL x max_fractional_value 1,2,100,255 x dtype x 6 memory layouts. '
+        'non-trivial = accepted value / changed class / written file')
 
 VRS = ['CS', 'SH', 'LO', 'ST', 'LT']
 LIMIT = {'CS': 16, 'SH': 16, 'LO': 64, 'ST': 1024, 'LT': 10240}
@@ -100,12 +120,24 @@ def extra_obligations(work):
         obl.append({'name': 'conv_' + f['qual'], 'status': ('untranslatable:' + f['why'])[:200]})
     if len(convs) + len(fails) < 40:
         obl.append({'name': 'conv_inventory', 'status': f'only {len(convs) + len(fails)} converters found'})
+    # constructor bodies: the pinned list T.EXPECTED_CTORS must stay translatable and accepted by ok_ctor
+    try:
+        ctors, cfails = T.translate_ctors(common.REPO, {c['qual'] for c in convs})
+    except Exception as ex:
+        ctors, cfails = [], {}
+        obl.append({'name': 'translate_c20_ctors', 'status': f'translator-error:{type(ex).__name__}:{ex}'[:200]})
     path = os.path.join(work, 'C20_Converters.v')
-    open(path, 'w').write(T.emit_coq(convs, fails, common.REPO))
+    txt = T.emit_coq(convs, fails, common.REPO)
+    cut = txt.find('Example conv_')      # constructor verdicts are printed before the first Example can stop coqc
+    cut = len(txt) if cut < 0 else cut
+    open(path, 'w').write(txt[:cut] + T.emit_ctors(ctors, cfails) + txt[cut:])
     rc, out = common.sh(f'timeout 600 coqc -Q {common.COQ}/theories HD -Q {work} Work {path}', cwd=work, timeout=660)
     parts = out.split(': list (string * bool)')
-    verdict = dict((m.group(1), m.group(2) == 'true')
-                   for m in re.finditer(r'\("([^"]*)",\s*(true|false)\)', parts[0])) if len(parts) > 1 else {}
+
+    def pairs(txt):
+        return dict((m.group(1), m.group(2) == 'true') for m in re.finditer(r'\("([^"]*)",\s*(true|false)\)', txt))
+    verdict = pairs(parts[0]) if len(parts) > 1 else {}
+    cverdict = pairs(parts[2]) if len(parts) > 3 else {}
     for c in convs:
         v = verdict.get(c['qual'])
         st = 'ok' if v is True and rc == 0 else ('rejected-by-checker' if v is False else
@@ -115,6 +147,18 @@ def extra_obligations(work):
         obl.append({'name': T.coq_ident(c['qual']) + '_ok', 'status': st})
     obl.append({'name': 'conv_all_ok', 'status': 'ok' if rc == 0 and verdict and all(verdict.values())
                 else 'build-failed:' + out[-300:].replace('\n', ' ')})
+    for cls in T.EXPECTED_CTORS:
+        q = cls + '.__init__'
+        v = cverdict.get(q)
+        if q in cfails:
+            st = ('untranslatable:' + cfails[q])[:200]
+        elif v is True:
+            st = 'ok'            # vm_compute verdict of coqc, printed before any later failure of the file
+        elif v is False:
+            st = 'rejected-by-checker: the constructor body may write to one of its parameters'
+        else:
+            st = 'not-checked:' + out[-200:].replace('\n', ' ')
+        obl.append({'name': T.ctor_ident(q) + '_ok', 'status': st})
     return obl
 
 
@@ -1564,6 +1608,96 @@ def run_pm_native(c):
     return list(bytes(pm[kwd].value))
 
 
+TS_CODES = {0: [None], 1: ['1.2.840.10008.1.2'], 2: ['1.2.840.10008.1.2.1'], 3: ['1.2.840.10008.1.2.2'],
+            4: ['1.2.840.10008.1.2.1.99'],
+            5: ['1.2.840.10008.1.2.5', '1.2.840.10008.1.2.4.50', '1.2.840.10008.1.2.4.80', '1.2.840.10008.1.2.4.90'],
+            6: ['1.2.840.10008.5.1.4.1.1.2', '1.2.3.4', '1.2.840.10008.1.1']}
+SEX = [None, '', 'M', 'F', 'O', 'X']
+QUALIFICATION = [None, '', 'PRODUCT', 'RESEARCH', 'SERVICE', 'FOO']
+SOP_LO_ARGS = ['series_description', 'manufacturer', 'manufacturer_model_name', 'device_serial_number',
+               'software_versions', 'institution_name', 'institutional_department_name']
+SOP_LO_KEYWORDS = ['SeriesDescription', 'Manufacturer', 'ManufacturerModelName', 'DeviceSerialNumber',
+                   'SoftwareVersions', 'InstitutionName', 'InstitutionalDepartmentName']
+
+
+def _ts_code(uid):
+    for code, uids in TS_CODES.items():
+        if uid in uids:
+            return code
+    return 6
+
+
+def run_sop_init(c):
+    """highdicom.base.SOPClass(...) itself: file meta information and the mandatory modules."""
+    from highdicom.base import SOPClass
+    kw = dict(study_instance_uid=c['study'], series_instance_uid=c['series'], series_number=c['series_number'],
+              sop_instance_uid=c['instance'], sop_class_uid=c['cls'], instance_number=c['instance_number'],
+              modality='OT', transfer_syntax_uid=TS_CODES[c['ts']][c['ts_pick'] % len(TS_CODES[c['ts']])],
+              patient_sex=SEX[c['sex']], content_qualification=QUALIFICATION[c['qual']])
+    for name, v in zip(SOP_LO_ARGS, c['lo']):
+        kw[name] = None if v is None else _pystr(v)
+    try:
+        obj = SOPClass(**kw)
+    except (ValueError, TypeError) as ex:
+        if _call_mistake(ex):
+            raise
+        return Err(type(ex).__name__)
+    fm = obj.file_meta
+    # strict write + read back, except for values that end in a blank: trailing blanks of LO values are
+    # padding in DICOM (PS3.5 6.2) and pydicom strips them when reading, so such a value cannot read back
+    # character for character whatever the library does (the model comparison still covers them)
+    if all(not v or v[-1] != 32 for v in c['lo']):
+        viol, _ = _check_object('SOPClass', obj, {})
+        if viol:
+            return _viol(viol)
+
+    def lo(kwd):
+        v = obj.get(kwd)
+        return None if v is None else [ord(ch) for ch in str(v)]
+
+    def code(v, table):
+        return None if v in (None, '') else table.index(str(v)) - 1
+    return [_ts_code(str(fm.TransferSyntaxUID)), [ord(ch) for ch in str(fm.MediaStorageSOPClassUID)],
+            [ord(ch) for ch in str(fm.MediaStorageSOPInstanceUID)], [ord(ch) for ch in str(obj.SOPClassUID)],
+            [ord(ch) for ch in str(obj.SOPInstanceUID)], [ord(ch) for ch in str(obj.StudyInstanceUID)],
+            [ord(ch) for ch in str(obj.SeriesInstanceUID)], int(obj.SeriesNumber), int(obj.InstanceNumber),
+            code(obj.get('PatientSex'), SEX), [lo(k) for k in SOP_LO_KEYWORDS],
+            code(obj.get('ContentQualification'), QUALIFICATION)]
+
+
+def _plane_array(c):
+    """The plane handed to the kernel: Rows x Columns (x Segments), float values given in quarters."""
+    import numpy as np
+    vals = c['plane']
+    rows = c['rows']
+    a = np.array(vals, dtype=np.float64) / 4 if c['fl'] else np.array(vals)
+    a = a.astype(c['in_dtype'])
+    nch = len(vals[0])
+    a = a.reshape(rows, len(vals) // rows, nch) if c['nd3'] else a.reshape(rows, len(vals) // rows)
+    return _relayout(a, c.get('layout', 'C'))
+
+
+def run_seg_plane(c):
+    """Segmentation._get_segment_pixel_array on one plane: [was the caller's array written to, values]."""
+    import numpy as np
+    import highdicom as hd
+    from highdicom.seg import SegmentationTypeValues as T
+    arr = _plane_array(c)
+    before = _snap(arr)
+    try:
+        out = hd.seg.Segmentation._get_segment_pixel_array(
+            arr, c['seg'], np.array(c['described']), T.FRACTIONAL if c['frac'] else T.BINARY, c['mfv'],
+            np.dtype(c['out_dtype']).type)
+    except ValueError as ex:
+        if 'read-only' in str(ex):
+            return [True, []]
+        raise
+    changed = _snap(arr) != before
+    if out.dtype != np.dtype(c['out_dtype']):
+        return _viol(f"plane has dtype {out.dtype}, {c['out_dtype']} was asked for")
+    return [bool(changed), [int(v) for v in np.asarray(out).reshape(-1)]]
+
+
 # --------------------------------------------------------------------------
 # generators
 # --------------------------------------------------------------------------
@@ -1645,6 +1779,8 @@ def gen_cases(rng, tier):
     cases += _gen_lut_cases(rng, n)
     cases += _gen_pyr_id_cases(rng, n)
     cases += _gen_pm_native_cases(rng, n)
+    cases += _gen_sop_init_cases(rng, n)
+    cases += _gen_seg_plane_cases(rng, n)
     return cases
 
 
@@ -1785,6 +1921,119 @@ def _gen_pyr_id_cases(rng, n):
     return cases
 
 
+def _lo_arg(rng):
+    if rng.random() < 0.45:
+        return None
+    n = rng.choice([0, 1, 2, 63, 64, 64, 65, rng.randint(1, 64), rng.randint(1, 70)])
+    s = [rng.choice([65, 97, 48, 32, 45, 46, 95, 94]) for _ in range(n)]
+    if s and rng.random() < 0.06:
+        s[rng.randrange(len(s))] = 92
+    return s
+
+
+def _gen_sop_init_cases(rng, n):
+    """SOPClass.__init__: every guard alone (first / last position, each exception class), the
+    order of the guards (two violations at once), boundary strings, every transfer syntax class."""
+    import uuid as _uuid
+    cases = []
+    classes = ['1.2.840.10008.5.1.4.1.1.66.4', '1.2.840.10008.5.1.4.1.1.2', '1.2.840.10008.5.1.4.1.1.88.33',
+               '1.2.840.10008.5.1.4.1.1.7', '1.2.840.10008.5.1.4.1.1.30']
+
+    def uid():
+        return rng.choice(['1.2.3', '2.25.' + str(rng.getrandbits(rng.choice([8, 64, 128]))),
+                           HD_ROOT + str(rng.randrange(10 ** rng.randint(1, 35)))])
+
+    def base(**over):
+        c = {'kind': 'sop_init', 'ts': rng.choice([0, 0, 1, 2, 4, 5]), 'ts_pick': rng.randrange(4), 'study': uid(),
+             'series': uid(), 'instance': uid(), 'cls': rng.choice(classes),
+             'series_number': rng.choice([1, 1, 2, 99, 2 ** 31 - 1]), 'instance_number': rng.choice([1, 1, 3, 1000]),
+             'sex': rng.choice([0, 0, 1, 2, 3, 4]), 'qual': rng.choice([0, 0, 2, 3, 4]),
+             'lo': [None] * 7}
+        c.update(over)
+        return c
+    ok_lo = [[65] * 64, [72, 68], None, [], [66] * 63, [73], [68] * 64]
+    cases.append(base(lo=ok_lo))
+    cases.append(base(lo=ok_lo, ts=0, sex=1, qual=0))
+    for ts in range(7):
+        for pick in range(len(TS_CODES[ts])):
+            cases.append(base(ts=ts, ts_pick=pick))
+    for sex in range(6):
+        cases.append(base(sex=sex))
+    for q in range(6):
+        cases.append(base(qual=q))
+    for v in (None, 0, -1, 1):
+        cases.append(base(series_number=v))
+        cases.append(base(instance_number=v))
+    for i in range(7):
+        for bad in ([65] * 65, [65, 92, 66], [92]):
+            lo = [None] * 7
+            lo[i] = bad
+            if i == 6:
+                cases.append(base(lo=list(lo)))          # department without institution: ignored
+                lo[5] = [73]
+            cases.append(base(lo=lo))
+    # two violations: the first guard in source order decides the exception class
+    cases.append(base(series_number=None, ts=3))
+    cases.append(base(series_number=None, sex=5))
+    cases.append(base(series_number=None, lo=[[65] * 65] + [None] * 6))
+    cases.append(base(instance_number=None, lo=[None, [92]] + [None] * 5))
+    cases.append(base(instance_number=None, qual=5))
+    cases.append(base(instance_number=None, series_number=0))
+    cases.append(base(instance_number=0, qual=5))
+    cases.append(base(series_number=None, instance_number=None))
+    for _ in range(30 * n):
+        cases.append(base(lo=[_lo_arg(rng) for _ in range(7)],
+                          series_number=rng.choice([1, 1, 1, 5, 12, 1, 0, None]),
+                          instance_number=rng.choice([1, 1, 1, 7, 300, 1, 0, None]),
+                          ts=rng.choice([0, 0, 1, 2, 4, 5, 5, 2, 3, 6]), sex=rng.choice([0, 1, 2, 3, 4, 1, 2, 5]),
+                          qual=rng.choice([0, 0, 1, 2, 3, 4, 5, 0])))
+    return cases
+
+
+def _gen_seg_plane_cases(rng, n):
+    """_get_segment_pixel_array: dtype x rank x described numbers x segmentation type x
+    max_fractional_value x memory layout, on planes the constructor can hand to it."""
+    cases = []
+    lays = ['C', 'C', 'strided', 'offset', 'readonly', 'F']
+    for fl in (False, True):
+        for nd3 in (False, True):
+            for single1 in (False, True):
+                for frac in ((True,) if fl else (False, True)):
+                    for mfv in ((1, 255, 2, 100) if frac else (1,)):
+                        for rep in range(n):
+                            rows, cols = rng.choice([(1, 2), (2, 2), (2, 3), (3, 1)])
+                            if nd3:
+                                nseg = 1 if single1 else rng.randint(2, 3)
+                                described = list(range(1, nseg + 1))
+                            else:
+                                nseg = 1
+                                described = [1] if single1 else rng.choice([[1, 2], [2], [1, 2, 3], [3, 7], [2, 1]])
+                            seg = rng.choice(described)
+                            if fl:
+                                plane = [[rng.choice([0, 1, 2, 3, 4]) for _ in range(nseg)] for _ in range(rows * cols)]
+                                in_dt = rng.choice(['float32', 'float64'])
+                            elif nd3 or single1:
+                                plane = [[rng.randint(0, 1) for _ in range(nseg)] for _ in range(rows * cols)]
+                                in_dt = rng.choice(['uint8', 'uint8', 'uint16', 'bool'])
+                            else:
+                                plane = [[rng.choice([0] + described)] for _ in range(rows * cols)]
+                                in_dt = rng.choice(['uint8', 'uint8', 'uint16'])
+                            out_dt = 'uint16' if (in_dt == 'uint16' and rng.random() < 0.5) else 'uint8'
+                            cases.append({'kind': 'seg_plane', 'fl': fl, 'nd3': nd3, 'described': described, 'seg': seg,
+                                          'frac': frac, 'mfv': mfv, 'plane': plane, 'rows': rows, 'in_dtype': in_dt,
+                                          'out_dtype': out_dt, 'layout': rng.choice(lays)})
+    # the configurations in which the returned plane is a view of the caller's array
+    for lay in ('C', 'offset', 'readonly', 'strided'):
+        for mfv in (255, 2):
+            cases.append({'kind': 'seg_plane', 'fl': False, 'nd3': True, 'described': [1, 2], 'seg': 2, 'frac': True,
+                          'mfv': mfv, 'plane': [[0, 1], [1, 1], [1, 0], [0, 0]], 'rows': 2, 'in_dtype': 'uint8',
+                          'out_dtype': 'uint8', 'layout': lay})
+            cases.append({'kind': 'seg_plane', 'fl': False, 'nd3': False, 'described': [1], 'seg': 1, 'frac': True,
+                          'mfv': mfv, 'plane': [[0], [1], [1], [0]], 'rows': 2, 'in_dtype': 'uint8',
+                          'out_dtype': 'uint8', 'layout': lay})
+    return cases
+
+
 def _gen_pm_native_cases(rng, n):
     cases = []
     pool = [0.0, 1.0, -1.0, 0.5, -2.25, 1.5, 1024.0, 3.0e-5 * 2 ** 20, -0.0, 255.0, 65535.0, 2.0 ** -10]
@@ -1874,6 +2123,10 @@ def run_impl(c):
         return run_pyr_ids(c)
     if k == 'pm_native':
         return run_pm_native(c)
+    if k == 'sop_init':
+        return run_sop_init(c)
+    if k == 'seg_plane':
+        return run_seg_plane(c)
     raise ValueError(k)
 
 
@@ -1915,6 +2168,26 @@ def coq_term(c):
                 pxs.append('[' + '; '.join(zl(items[base + j]) for j in range(M)) + ']')
             planes.append('[' + '; '.join(pxs) + ']')
         return f"(run_pm_native {'true' if c['be'] else 'false'} {M} [{'; '.join(planes)}])"
+    if k == 'sop_init':
+        def u(x):
+            return zl([ord(ch) for ch in x])
+
+        def ostr(v):
+            return 'None' if v is None else f'(Some {zl(v)})'
+        lo = c['lo']
+        return ('(run_sop_init {| a_ts := %d; a_study := %s; a_series := %s; a_instance := %s; a_class := %s; '
+                'a_series_number := %s; a_instance_number := %s; a_sex := %s; a_series_desc := %s; '
+                'a_manufacturer := %s; a_model := %s; a_serial := %s; a_software := %s; a_institution := %s; '
+                'a_department := %s; a_qualification := %s |})' % (
+                    c['ts'], u(c['study']), u(c['series']), u(c['instance']), u(c['cls']),
+                    common.optz(c['series_number']), common.optz(c['instance_number']),
+                    common.optz(None if c['sex'] == 0 else c['sex'] - 1), ostr(lo[0]), ostr(lo[1]), ostr(lo[2]),
+                    ostr(lo[3]), ostr(lo[4]), ostr(lo[5]), ostr(lo[6]),
+                    common.optz(None if c['qual'] == 0 else c['qual'] - 1)))
+    if k == 'seg_plane':
+        b = lambda x: 'true' if x else 'false'
+        return (f"(run_seg_plane {b(c['fl'])} {b(c['nd3'])} {b(c['described'] == [1])} "
+                f"{b(c['in_dtype'] == c['out_dtype'])} {b(c['frac'])} {c['seg']} {c['mfv']} {common.zll(c['plane'])})")
     return None
 
 
@@ -1994,6 +2267,43 @@ def oracle(c, out):
         if bytes(out) != want:
             return 'stored float pixel data are not the little-endian values of the array passed in'
         return None
+    if k == 'sop_init':
+        if isinstance(out, Err):
+            return None          # which arguments are refused, and how, is the model's side of the comparison
+        if c['ts'] in (3, 6):
+            return 'a big-endian transfer syntax / a UID that is no transfer syntax was accepted'
+        if _pystr(out[2]) != c['instance'] or _pystr(out[4]) != c['instance'] or \
+                _pystr(out[1]) != c['cls'] or _pystr(out[3]) != c['cls']:
+            return (f"file meta carries {_pystr(out[1])} / {_pystr(out[2])}, data set {_pystr(out[3])} / "
+                    f"{_pystr(out[4])}, the caller passed {c['cls']} / {c['instance']}")
+        if not _uid_ok(_pystr(out[2])):
+            return f'MediaStorageSOPInstanceUID {_pystr(out[2])!r} is not a valid UID'
+        for kwd, v in zip(SOP_LO_KEYWORDS, out[10]):
+            if v is not None and (len(v) > 64 or 92 in v):
+                return f'{kwd} = {_pystr(v)!r} cannot be written as LO'
+        if out[7] < 1 or out[8] < 1:
+            return 'series / instance number below 1'
+        return None
+    if k == 'seg_plane':
+        if isinstance(out, Err):
+            return str(out)
+        changed, vals = out
+        if changed:
+            return ('_get_segment_pixel_array wrote into the plane of the pixel array passed by the caller '
+                    f"(dtype {c['in_dtype']}, {'stack of segments' if c['nd3'] else 'label map'}, "
+                    f"{'FRACTIONAL' if c['frac'] else 'BINARY'}, max_fractional_value {c['mfv']}, layout {c.get('layout')})")
+        from fractions import Fraction
+        want = []
+        for px in c['plane']:
+            ch = px[c['seg'] - 1] if c['nd3'] else px[0]
+            if c['fl']:
+                want.append(round(Fraction(ch * c['mfv'], 4)))
+            else:
+                bit = ch if (c['nd3'] or c['described'] == [1]) else int(ch == c['seg'])
+                want.append(bit * (c['mfv'] if c['frac'] else 1))
+        if vals != want:
+            return f'plane of segment {c["seg"]} is {vals[:8]}, expected {want[:8]}'
+        return None
     return f'unknown kind {k}'
 
 
@@ -2003,8 +2313,10 @@ def nontrivial(c, out):
         return bool(out) or len(c['s']) > 1
     if k in ('conv', 'ctor', 'ctor_layout', 'ctor_multi', 'ctor_opt'):
         return isinstance(out, dict) and out.get('ran', False)
-    if k in ('lut', 'pyr_ids', 'pm_native'):
+    if k in ('lut', 'pyr_ids', 'pm_native', 'sop_init'):
         return not isinstance(out, Err)
+    if k == 'seg_plane':
+        return any(v for px in c['plane'] for v in px)
     return True
 
 
